@@ -106,6 +106,21 @@ theorem split_sum (p : Prepared) (k m : Nat) (hk : 0 < k) (hm : 0 < m) :
     conv_rhs => rw [← List.map_id p.aux]
     apply List.map_congr_left; intro x _; simp [Function.comp, div_mul_cancel₀ _ hm']
 
+/-- **All propulsors together receive the propulsion power**, for every mix of electric drives and shaft-line
+loads (every receiver is a propulsor and the divisor is their number). -/
+theorem propulsors_receive_all (P : Rat) (drives mechLoads : Nat) (shaft : Bool)
+    (h : 0 < propulsors drives mechLoads shaft) :
+    handedOut P (propulsors drives mechLoads shaft) (propulsors drives mechLoads shaft) = P := by
+  unfold handedOut
+  have : ((propulsors drives mechLoads shaft : Nat) : Rat) ≠ 0 := by exact_mod_cast h.ne'
+  field_simp
+
+/-- As found (D34) a vessel with one propeller and one electric thruster handed the whole power to each. -/
+theorem propulsors_legacy_double :
+    handedOut 400 (propulsors 1 1 true) (propulsorsLegacy 1 1 true) = 800 ∧
+    handedOut 400 (propulsors 1 1 true) (propulsors 1 1 true) = 400 := by
+  decide +kernel
+
 /-- Equal prepared inputs, equal results (for any result function). -/
 theorem same_inputs_same_results {R : Type} (run : Prepared → R) (a b : Prepared) (h : a = b) : run a = run b := by
   rw [h]
